@@ -741,6 +741,15 @@ example (x : Fin 2 → ℝ) : ∀ i j, MeasureTheory.Integrable
       MeasureTheory.volume :=
   fun i j => (integral_exp_abs_mul (x i) (x j)).1
 
+/-- the hypotheses of `gram_jet_product_psd` are satisfiable: two PSD value / gradient block matrices (blocks of the linear and
+of the exponential kernel at arbitrary points). -/
+example (X : Matrix (Fin 2) (Fin 2) ℝ) :
+    ∃ A B : Matrix (Fin 2 × Option (Fin 2)) (Fin 2 × Option (Fin 2)) ℝ, A.PosSemidef ∧ B.PosSemidef :=
+  ⟨_, _, linGrad_psd X zero_le_one, expGrad_psd X⟩
+
+/-- positivity hypotheses (`ℓ`, `α`, `β`, offset `c`) of the wave-3 Gram theorems at typical gpytorch values. -/
+example : (0 : ℝ) < 7 / 10 ∧ (0 : ℝ) < 1 / 2 ∧ (0 : ℝ) < 2 ∧ (0 : ℝ) ≤ 1 := by norm_num
+
 /-- the lengthscale hypothesis of `gram_rbf_grad_psd` is satisfiable. -/
 example : ∀ k : Fin 2, (![(7 : ℝ) / 10, 19 / 10]) k ≠ 0 := by
   intro k; fin_cases k <;> norm_num
